@@ -29,7 +29,7 @@ Definition mat := list vec.
 (* Switches: set one to `true` when the corresponding repair is in /repo (proposed_fix_C16_F*.diff).  The Impl then
    models the repaired mechanism, the guard of that class becomes vacuous, the generator of harness/c16.py (which
    reads these three lines) starts producing the class, and the `_refuted` lemma of the class becomes vacuous. *)
-Definition fixed_F2 : bool := false.   (* post-synaptic variable registered under its own name *)
+Definition fixed_F2 : bool := true.   (* post-synaptic variable registered under its own name *)
 Definition fixed_F3 : bool := false.   (* scalar weight + coupling template -> full weight matrix *)
 Definition fixed_F8 : bool := false.   (* one ring buffer per delayed Connectivity *)
 
@@ -186,9 +186,14 @@ Definition cpl_bad_shape (c : conn) : bool :=
   end.
 (* a target variable with several inputs: the renamed source variable `x_in{i}` of one connection and the
    post-synaptic variable `x` of a coupled connection are the same variable of the target population (NameError) *)
+(* (with repair F2 the post-synaptic variable of a self-coupling shares the name of its own source variable: no alias) *)
+Definition same_conn (c1 c2 : conn) : bool :=
+  (csrc c1 =? csrc c2)%nat && (csv c1 =? csv c2)%nat && (ctgt c1 =? ctgt c2)%nat && (ctv c1 =? ctv c2)%nat &&
+  (cpv c1 =? cpv c2)%nat && (cdelay c1 =? cdelay c2)%nat.
 Definition alias (N : popnet) : bool :=
   existsb (fun c2 => is_mat (cw c2) && uses_post (ccpl c2) && (2 <=? n_into N (ctgt c2) (ctv c2))%nat &&
-                     existsb (fun c1 => into (ctgt c2) (ctv c2) c1 && (csrc c1 =? ctgt c2)%nat && (csv c1 =? cpv c2)%nat)
+                     existsb (fun c1 => into (ctgt c2) (ctv c2) c1 && (csrc c1 =? ctgt c2)%nat && (csv c1 =? cpv c2)%nat
+                                        && negb (fixed_F2 && same_conn c1 c2))
                              (conns N)) (conns N).
 Definition has_delay (c : conn) : bool := negb (eff_delay (cdelay c) =? 0)%nat.
 (* a delayed (1 x 1) matrix: the buffered source is a (1,) array that is assigned to a scalar slot (ValueError) *)
